@@ -2,9 +2,12 @@ package extension
 
 import (
 	"database/sql"
+	"errors"
 	"fmt"
+	"io"
 	"net"
 	"strings"
+	"syscall"
 	"time"
 
 	"raven/internal/blobstorage"
@@ -158,6 +161,11 @@ func HandleIdle(deps ServerDeps, conn net.Conn, tag string, state *models.Client
 		n, err := conn.Read(buf)
 		if err == nil && strings.TrimSpace(strings.ToUpper(string(buf[:n]))) == "DONE" {
 			deps.SendResponse(conn, fmt.Sprintf("%s OK IDLE terminated", tag))
+			return
+		}
+		// The short read deadline expiring is the normal case; end of stream or a reset means the client is gone
+		if errors.Is(err, io.EOF) || errors.Is(err, io.ErrUnexpectedEOF) || errors.Is(err, io.ErrClosedPipe) ||
+			errors.Is(err, syscall.ECONNRESET) || errors.Is(err, syscall.EPIPE) {
 			return
 		}
 	}
